@@ -8,7 +8,7 @@ import Driver.Wire
 
     exectrace <cmd> <setup> T n … H n … R n … ORD n <pathhex>… <inj> [k]
 
-  cmd    rename | apply | redo | replace | undo
+  cmd    rename | apply | redo | replace | undo | reapply (`apply <id>` of an operation that has been undone)
   setup  fresh (no `.renamify` beyond what the command sequence itself needs) | old (one earlier, unrelated
          rename is recorded: history entry `O`, its plan/patch/log files under the placeholder id `<OLD>`)
   T      the user tree BEFORE the plan is applied (for `undo` the driver applies the plan with
@@ -68,7 +68,7 @@ def metaFor (cmd : String) (old : Bool) : Tree :=
   | "rename" | "replace" => base ++ (if old then hist o else [])
   | "apply" => (if old then base ++ hist o else [dir pR]) ++ [file pPlanJson blob]
   | "undo" => (if old then base else metaBase) ++ recorded idNew ++ hist (o ++ [entryApply])
-  | "redo" => (if old then base else metaBase) ++ recorded idNew ++ hist (o ++ [entryApply, entryUndo])
+  | "redo" | "reapply" => (if old then base else metaBase) ++ recorded idNew ++ hist (o ++ [entryApply, entryUndo])
   | _ => []
 
 def paths? : List String → Option (List Path × List String)
@@ -134,6 +134,7 @@ def exectrace : List String → String
                 | "rename" => some (cmdRename plan)
                 | "apply" => some (cmdApply plan)
                 | "redo" => some (cmdRedo plan)
+                | "reapply" => some (cmdReapply plan)
                 | "replace" => some (cmdReplace plan)
                 | "undo" => some (cmdUndo plan (originals t ord))
                 | _ => none
